@@ -32,17 +32,22 @@ type LLMapEntry struct {
 }
 
 type LLMap struct {
-	Name                      string
-	KeySize, ValSize          int
-	MaxEntries                int
-	Type                      int
-	Entries                   []*LLMapEntry
-	OnMiss                    string // "null" (default) or "symbolic"
-	PerCPU                    bool
+	Name             string
+	KeySize, ValSize int
+	MaxEntries       int
+	Type             int
+	Entries          []*LLMapEntry
+	OnMiss           string // "null" (default) or "symbolic"
+	PerCPU           bool
 	// OnMissFn, when set, replaces OnMiss for hash-like and LPM maps: it returns the value bytes of an entry to create
 	// for the looked-up key, or nil for "absent" (used by the concrete differential self-test).
 	OnMissFn func(m *LLMap, key []*Term) []*Term
-	nFresh   int
+	// MaxSymbolic (0 = unlimited) bounds how many arbitrary entries OnMiss=="symbolic" may discover on one path: once
+	// that many lookups have hit a fresh entry, further unknown keys are absent. (Bounded-map assumption that keeps
+	// retry loops over lookups finite.)
+	MaxSymbolic int
+	nFresh      int
+	nSymHits    int
 }
 
 type LLEvent struct {
@@ -61,6 +66,10 @@ type LLEnv struct {
 	// Choose, when set, resolves environment choices (ring buffer reservation, adjust_tail success, opaque LPM hit, ...)
 	// deterministically instead of forking; tag identifies the choice.
 	Choose func(tag string) bool
+	// NoIfConversion disables the merging of small triangles/diamonds (then every symbolic branch forks).
+	NoIfConversion bool
+	// Cover, when non-nil, records the executed basic blocks as "function:block".
+	Cover map[string]bool
 	// KtimeLog collects the values returned by bpf_ktime_get_ns on this path.
 	KtimeLog []*Term
 }
@@ -223,7 +232,8 @@ func (r *llRun) onMiss(m *LLMap, key []*Term) LLVal {
 	if m.OnMiss != "symbolic" {
 		return r.null()
 	}
-	if r.choice("hit." + m.Name) {
+	if (m.MaxSymbolic == 0 || m.nSymHits < m.MaxSymbolic) && r.choice("hit."+m.Name) {
+		m.nSymHits++
 		e := &LLMapEntry{Key: key, Val: r.newValObj(m, r.freshValBytes(m))}
 		m.Entries = append(m.Entries, e)
 		return ptrTo(e.Val, tc)
@@ -461,7 +471,7 @@ func (r *llRun) helper(name string, a []LLVal, ins *LLInstr) LLVal {
 			return r.ret64(-1)
 		}
 		pkt.Len = newLen
-		pkt.lenLB = 0
+		pkt.lenFacts = nil
 		r.setDataEnd()
 		return r.ret64(0)
 	case "bpf_perf_event_output":
